@@ -76,6 +76,7 @@ func canRecv(ch *Chan) bool {
 
 func (g *G) doSend(ch *Chan, v value) {
 	ex := g.ex
+	ex.heapVersion++
 	if ch.closed {
 		panic(targetPanic{v: iface{t: ex.prog.runtimeErrorString, v: "send on closed channel"}, msg: "send on closed channel"})
 	}
@@ -118,6 +119,7 @@ func (g *G) doSend(ch *Chan, v value) {
 
 func (g *G) doRecv(ch *Chan) (value, bool) {
 	ex := g.ex
+	ex.heapVersion++
 	if len(ch.buf) > 0 {
 		m := ch.buf[0]
 		ch.buf = ch.buf[1:]
@@ -171,6 +173,7 @@ func (g *G) chanClose(ch *Chan) {
 		panic(targetPanic{v: iface{t: g.ex.prog.runtimeErrorString, v: "close of closed channel"}, msg: "close of closed channel"})
 	}
 	ch.closed = true
+	g.ex.heapVersion++
 	if g.ex.mon != nil {
 		ch.closeVC = g.ex.mon.releaseVC(g)
 	}
@@ -540,6 +543,7 @@ func ctxObj(c *CtxNode) interface{} {
 }
 
 func (n *CtxNode) cancel(g *G, err value) {
+	g.ex.heapVersion++
 	n.touchRec(g.ex)
 	var vc []int
 	if g.ex.mon != nil {
